@@ -112,7 +112,7 @@ def check_parses(res, prop, parses, hist, key_fn=None):
 def run_c05(t, tier, res):
     mode = t.draw(3)
     flavour = {"nonascii": t.chance(1, 3), "sites": t.chance(1, 3), "nonbmp": t.chance(1, 6), "awkward": t.chance(1, 12),
-               "tricky": t.chance(2, 3), "zoo": t.chance(1, 4)}
+               "tricky": t.chance(2, 3), "zoo": t.chance(1, 4), "large": t.chance(1, 30 if tier == "quick" else 8)}
     if mode < 2:
         pws, opts = trainer.gen_list(t, flavour)
         extra = ["1qaz2019", "#12019", "a@b.comwww.c.org", "No.1qaz", "password2019monkey", "x19991999", "qwer1234asdf",
@@ -130,6 +130,8 @@ def run_c05(t, tier, res):
             opts = dict(opts, multiword=mwf)
             res.stats["multiword_pretraining_file"] += 1
         tr = trainer.train(pws, opts)
+        if flavour.get("large"):
+            res.stats["large_lists_trained" if tr.ok else "large_lists_not_trained"] += 1
         res.sample = {"mode": "trainer", "passwords": pws[:14], "n": len(pws), "opts": {k: v for k, v in opts.items() if k != "multiword"},
                       "multiword_file": mw_words}
         if tr.exc and "parse" in tr.exc:
@@ -339,7 +341,7 @@ def check_ruleset_against_tally(rdir, enc, tally, opts, n_valid):
 
 
 def run_c06(t, tier, res):
-    flavour = {"nonascii": t.chance(1, 3), "sites": t.chance(1, 2), "nonbmp": t.chance(1, 8), "zoo": t.chance(1, 5)}
+    flavour = {"nonascii": t.chance(1, 3), "sites": t.chance(1, 2), "nonbmp": t.chance(1, 8), "zoo": t.chance(1, 5), "large": t.chance(1, 30 if tier == "quick" else 8)}
     pws, opts = trainer.gen_list(t, flavour)
     if t.chance(1, 3):
         opts["coverage"] = round(t.between(1, 99) / 100.0, 2)
@@ -347,6 +349,8 @@ def run_c06(t, tier, res):
         opts["coverage"] = t.choice([1e-06, 0.0001, 0.001, 0.999999])     # probabilities far below 1e-4 / Markov mass near 0
     wr = scratch.fresh_disk()
     tr = trainer.train(pws, opts, uuid_seed=1)
+    if flavour.get("large"):
+        res.stats["large_lists_trained" if tr.ok else "large_lists_not_trained"] += 1
     res.sample = {"passwords": pws[:14], "n": len(pws), "opts": opts}
     if not tr.ok:
         res.rejected = "trainer_failed"
